@@ -471,6 +471,147 @@ func genBucket(r *vu.Rng, directed int) *bucketSpec {
 	return b
 }
 
+// genDirected: sibling partitions (metrics, groups or namespaces) with DIFFERENT effective weights whose size/weight
+// ratios are equal, differ by one unit of the cross product, or share the integer quotient; the budget is placed at the
+// total size, next to it, or on the share boundary of one of the partitions.
+func genDirected(r *vu.Rng) *bucketSpec {
+	b := &bucketSpec{}
+	c := &b.cfg
+	level := r.Intn(3) // 0: metrics, 1: groups, 2: namespaces are the weighted siblings
+	c.agent, c.keepSingle, c.disableNSA = r.Bool(), r.Chance(15), r.Bool()
+	c.budgets, c.keys, c.quota, c.rng = r.Chance(15), r.Chance(30), r.Chance(8), r.Chance(30)
+	switch level {
+	case 0:
+		c.nss, c.groups = r.Chance(25), r.Chance(25)
+	case 1:
+		c.groups, c.nss = true, r.Chance(25)
+	default:
+		c.nss, c.groups = true, r.Bool()
+	}
+	wset := []int64{1, 2, 3, 5, 7, 64, 128, 256, 384, 640, 1280}
+	k := 2
+	if r.Chance(35) {
+		k = 3
+	}
+	var ws []int64
+	for len(ws) < k {
+		w := wset[r.Intn(len(wset))]
+		if r.Chance(50) {
+			w = []int64{128, 256, 384}[r.Intn(3)] // multiples of EffectiveWeightOne
+		}
+		dup := false
+		for _, x := range ws {
+			dup = dup || x == w
+		}
+		if !dup {
+			ws = append(ws, w)
+		}
+	}
+	q := int64(1 + r.Intn(9))
+	mode := r.Intn(4)
+	fracNum := int64(r.Intn(16)) // common fractional part, in 16ths
+	sizes := make([]int64, k)
+	for i, w := range ws {
+		var rem int64
+		switch mode {
+		case 0: // exactly equal ratios
+			rem = 0
+		case 1: // same integer quotient, arbitrary remainders
+			rem = int64(r.Intn(int(w)))
+		default: // nearly equal ratios: remainders of the same fraction, off by -1..1
+			rem = w*fracNum/16 + int64(r.Intn(3)) - 1
+		}
+		if rem < 0 {
+			rem = 0
+		}
+		if rem >= w {
+			rem = w - 1
+		}
+		sizes[i] = q*w + rem
+		if mode == 3 && r.Chance(30) { // quotients one apart
+			sizes[i] += w
+		}
+	}
+	rowID := 0
+	mid := int32(0)
+	addMetric := func(ns, group int32, nsw, gw, mw int64, size int64) {
+		mid++
+		m := &metricSpec{id: mid, ns: ns, group: group, nsw: nsw, gw: gw, mw: mw}
+		m.viaStorage = r.Chance(10)
+		b.metrics = append(b.metrics, m)
+		n := int64(1 + r.Intn(6))
+		if n > size {
+			n = size
+		}
+		for j := int64(0); j < n; j++ {
+			sz := size / n
+			if j < size%n {
+				sz++
+			}
+			rw := &rowSpec{id: rowID, m: m, size: int(sz), whale: r.Intn(8), single: r.Bool()}
+			rowID++
+			b.rows = append(b.rows, rw)
+		}
+	}
+	small := []int64{1, 2, 3}
+	for i := 0; i < k; i++ {
+		switch level {
+		case 0:
+			addMetric(1, 11, 2, 3, ws[i], sizes[i])
+		case 1:
+			g := int32(11 + i)
+			if sizes[i] >= 2 && r.Bool() { // two metrics in the group
+				a := 1 + int64(r.Intn(int(sizes[i]-1)))
+				addMetric(1, g, 2, ws[i], small[r.Intn(3)], a)
+				addMetric(1, g, 2, ws[i], small[r.Intn(3)], sizes[i]-a)
+			} else {
+				addMetric(1, g, 2, ws[i], small[r.Intn(3)], sizes[i])
+			}
+		default:
+			ns := int32(1 + i)
+			g := int32(11 + i)
+			if sizes[i] >= 2 && r.Bool() {
+				a := 1 + int64(r.Intn(int(sizes[i]-1)))
+				addMetric(ns, g, ws[i], 1, small[r.Intn(3)], a)
+				addMetric(ns, g, ws[i], 1, small[r.Intn(3)], sizes[i]-a)
+			} else {
+				addMetric(ns, g, ws[i], 1, small[r.Intn(3)], sizes[i])
+			}
+		}
+	}
+	if r.Bool() { // reverse the ids' order relative to the ratios
+		for i := len(b.rows) - 1; i > 0; i-- {
+			j := r.Intn(i + 1)
+			b.rows[i], b.rows[j] = b.rows[j], b.rows[i]
+		}
+	}
+	total, W, maxS := int64(0), int64(0), int64(0)
+	for i := range sizes {
+		total += sizes[i]
+		W += ws[i]
+		if sizes[i] > maxS {
+			maxS = sizes[i]
+		}
+	}
+	switch r.Intn(7) {
+	case 0, 1:
+		b.budget = total
+	case 2:
+		b.budget = total - 1
+	case 3:
+		b.budget = total + 1
+	case 4:
+		b.budget = total - int64(r.Intn(int(maxS)+1))
+	default: // the share boundary of one partition: B*w ~ W*size
+		i := r.Intn(k)
+		b.budget = (W*sizes[i]+ws[i]-1)/ws[i] + int64(r.Intn(3)) - 1
+	}
+	if b.budget < 0 {
+		b.budget = 0
+	}
+	return b
+}
+
 type rowObs struct {
 	n     int
 	kept  bool
@@ -783,6 +924,18 @@ func evalCase(o0 *vu.Out, b *bucketSpec, seed uint64) (skipped bool) {
 			}
 		}
 	}
+	// a metric with a fixed per-metric budget that is within that budget is kept entirely with factor 1
+	if c.budgets {
+	fixedLoop:
+		for _, rw := range b.rows {
+			if rw.size > 0 && rw.m.budget != 0 && int64(rw.m.budget) >= msize[rw.m] {
+				if ro := obs[rw.id]; !ro.kept || ro.sf != 1 {
+					o.Fail("fixed_metric_within_budget_kept", line, input)
+					break fixedLoop
+				}
+			}
+		}
+	}
 	// within-share at the first level: a partition with size*W <= B*w is kept entirely with factor 1
 	ambiguous := (!c.budgets && anyFixedRow) || !weightsOK
 	if c.groups && !c.nss { // the same group id may sit under several namespaces
@@ -813,6 +966,32 @@ func evalCase(o0 *vu.Out, b *bucketSpec, seed uint64) (skipped bool) {
 		W := int64(0)
 		for _, w := range pw {
 			W += w
+		}
+		// a partition with a larger size/weight ratio is never kept entirely while one with a smaller ratio is sampled
+		// (deterministic floor rounding only: roundSampleFactor may round the nested budget of the larger one up to its size)
+		if !c.rng && !nsaActive && !c.keepSingle && fixedOver == 0 {
+			entire := map[string]bool{}
+			for k := range psize {
+				entire[k] = true
+			}
+			for _, rw := range b.rows {
+				if rw.size < 1 || (c.budgets && rw.m.budget != 0) {
+					continue
+				}
+				k, _ := topKey(b, rw)
+				if ro := obs[rw.id]; !ro.kept || ro.sf != 1 || int64(ro.quota) != int64(rw.size) {
+					entire[k] = false
+				}
+			}
+		mono:
+			for kp, sp := range psize {
+				for kq, sq := range psize {
+					if sp*pw[kq] < sq*pw[kp] && entire[kq] && !entire[kp] {
+						o.Fail("sf_monotone_in_ratio", line, input)
+						break mono
+					}
+				}
+			}
 		}
 		for k, sz := range psize {
 			if sz*W <= b.budget*pw[k] {
@@ -875,6 +1054,7 @@ func main() {
 			}
 		}
 		o.Finding("F-C05b", got)
+		o.Finding("F-C06c", got) // the same run: the fixed-budget metric within its budget is not kept with factor 1
 		evalCase(o, b, 1)
 	}
 	{ // F-C06: sizes 1,1,1,100 with the heavy row a whale, budget 52: kept size 100+ > 52
@@ -897,6 +1077,9 @@ func main() {
 	}
 	for i := 0; o.N < *n && i < *n*3; i++ {
 		b := genBucket(r, i)
+		if i%4 == 3 {
+			b = genDirected(r)
+		}
 		evalCase(o, b, r.U64())
 	}
 }
